@@ -6,12 +6,19 @@ usage: python3-vt tools/gen_alpha.py
 """
 
 import json
+import os
 import sys
 from pathlib import Path
 
 sys.path.insert(0, str(Path(__file__).resolve().parent.parent))
-from engine import alpha, core  # noqa: E402
+from engine import alpha, calpha, cast, core  # noqa: E402
 
 t = alpha.build(core.REPO, core.python_files("phonopy"))
 alpha.TABLE.write_text(json.dumps(t, indent=0, sort_keys=True))
 print(f"{alpha.TABLE}: {len(t)} files, {sum(len(v) for v in t.values())} functions")
+
+csrc = sorted(str(p.relative_to(core.REPO)) for p in (core.REPO / "c").glob("*.c"))
+os.environ["VERIF_NO_ALPHA"] = "1"  # the table is built from the text as it stands
+ct = calpha.build(core.read, cast.load, csrc)
+calpha.TABLE.write_text(json.dumps(ct, sort_keys=True))
+print(f"{calpha.TABLE}: {len(ct)} files, {sum(len(v) for v in ct.values())} functions")
